@@ -99,3 +99,44 @@ pub fn put_ivs<'a>(w: &mut W, it: impl Iterator<Item = &'a Iv>) {
     w.n(v.len());
     for i in v { w.n(i.start).n(i.stop).n(i.val); }
 }
+
+/// exhaustive small scope: every sequence (with repetition) of at most `max_n` intervals over
+/// coordinates 0..=`m`, each in several build histories
+pub fn exhaustive_hists(max_n: usize, m: u64, zero_len: bool, merges: bool) -> Vec<Hist> {
+    let mut ivs: Vec<(u64, u64)> = vec![];
+    for s in 0..=m { for e in s..=m { if zero_len || s < e { ivs.push((s, e)); } } }
+    let mut seqs: Vec<Vec<(u64, u64)>> = vec![vec![]];
+    let mut frontier: Vec<Vec<(u64, u64)>> = vec![vec![]];
+    for _ in 0..max_n {
+        let mut next = vec![];
+        for f in &frontier { for iv in &ivs { let mut g = f.clone(); g.push(*iv); next.push(g); } }
+        seqs.extend(next.iter().cloned());
+        frontier = next;
+    }
+    let mut out = vec![];
+    for sq in seqs {
+        let with_vals: Vec<(u64, u64, u64)> = sq.iter().enumerate().map(|(i, x)| (x.0, x.1, i as u64)).collect();
+        // bulk
+        out.push(Hist { init: with_vals.clone(), ops: vec![] });
+        if !sq.is_empty() {
+            // insert-only, in the given order (all orders are enumerated since sequences are ordered)
+            out.push(Hist { init: vec![], ops: with_vals.iter().map(|x| Op::Insert(x.0, x.1, x.2)).collect() });
+            // first one in bulk, rest inserted
+            out.push(Hist { init: with_vals[..1].to_vec(), ops: with_vals[1..].iter().map(|x| Op::Insert(x.0, x.1, x.2)).collect() });
+            if merges {
+                let mut ops: Vec<Op> = vec![Op::Merge];
+                out.push(Hist { init: with_vals.clone(), ops: ops.clone() });
+                ops = with_vals[1..].iter().map(|x| Op::Insert(x.0, x.1, x.2)).collect();
+                ops.insert(0, Op::Merge); ops.push(Op::SetCov); ops.push(Op::Merge);
+                out.push(Hist { init: with_vals[..1].to_vec(), ops });
+            }
+        }
+    }
+    out
+}
+
+pub fn all_queries(m: u64) -> Vec<(u64, u64)> {
+    let mut qs = vec![];
+    for s in 0..=m + 1 { for e in s + 1..=m + 2 { qs.push((s, e)); } }
+    qs
+}
